@@ -974,6 +974,18 @@ theorem save_decode_fields {o : Obj} {os : OStream} {r : SaveRes} (hs : save o o
     · rw [er]
     · rw [g7]; exact sg.frame.alignGrows
 
+/-- every ELF header field of the saved file reads as it reads in the saved object's header -/
+theorem save_image_header {o : Obj} {os : OStream} {r : SaveRes} (hs : save o os = .ok r) (hok : r.ok = true)
+    (hg : os.Good) (htr : o.trans = []) {h : Bytes} (hh : r.obj.hdr = some h) (hlh : ehdrSize o.cls ≤ h.length)
+    (hl : LayoutOk r.obj.cls r.obj.enc h r.obj.secs r.obj.segs) (name : String)
+    (hv : ValidName (Spec.ehdrL o.cls) name) :
+    Spec.get (Spec.ehdrL o.cls) o.enc r.os.content 0 name = Spec.get (Spec.ehdrL o.cls) o.enc h 0 name := by
+  have sl := save_decodes_header hs hok hg htr hh hl
+  obtain ⟨e, he, _, hf⟩ := field_of_valid hv
+  have := (ehdr_table_ok o.cls).2 e he
+  rw [(sizes_eq o.cls).1] at hlh
+  exact get_at_base sl (by rw [hf]; omega)
+
 /-- **save_decode_header** : the first bytes of the file decode, per the specification, to the
     header attributes of the object (type, machine, version, entry, flags, the three record sizes,
     the name-table index, the identification bytes), with `e_shnum`/`e_phnum` the numbers of sections
